@@ -142,7 +142,6 @@ func c19Seq(x *explore.Ctx, mt, n, seqLen int, tier string) {
 	x.NonTrivial()
 	conns := map[int]*c19Conn{}
 	twins := map[int]*c19Conn{}
-	variantBytes := map[string][]byte{}
 	cur := x.Pick(len(kinds), "send0.kind")
 	mutated := false
 	if len(callerSlice) > 0 && x.Pick(2, "overwrite-caller-slice-after-creation") == 1 {
@@ -199,16 +198,7 @@ func c19Seq(x *explore.Ctx, mt, n, seqLen int, tier string) {
 			continue
 		}
 		x.Check(err == nil, fmt.Sprintf("C19:send-failed:type=%d", mt), "WritePreparedMessage on %s: %v", cc.kind, err)
-		sentBytes := append([]byte{}, cc.nc.Out[cc.pos:]...)
 		cc.judgeSend(x, "WritePreparedMessage", mt, orig)
-		// "a PreparedMessage's frames are built once and reused": a later send under the same
-		// (role, compression, level) settings puts the identical bytes on the wire
-		vk := fmt.Sprintf("%v/%v/%v/%d", cc.kind.server, cc.kind.negotiated && cc.kind.wcomp, mt, cc.kind.level)
-		if prev, ok := variantBytes[vk]; ok {
-			x.Check(bytes.Equal(prev, sentBytes), "C19:frame-rebuilt", "WritePreparedMessage on %s sent different bytes than an earlier send under the same settings (frames are to be built once and reused)", cc.kind)
-		} else {
-			variantBytes[vk] = sentBytes
-		}
 		// the twin: what WriteMessage sends on a connection with the same settings right now
 		tw := twins[cur]
 		tw.kind = cc.kind
